@@ -5,6 +5,7 @@ from dataclasses import dataclass
 from typing import Optional, Any
 from entity_query_language import *
 from entity_query_language.entity import for_all, flatten, concatenate
+from entity_query_language.symbolic import rule_mode
 from entity_query_language.cache_data import enable_caching, disable_caching
 from qcase import FIELDS, show_val
 
@@ -29,6 +30,16 @@ class P:
 
     def __repr__(self):
         return f"P#{self.idx}"
+
+
+@symbol
+@dataclass(eq=False)
+class H:
+    """the class a rule head constructs (C11)"""
+    h0: Any = None
+    h1: Any = None
+    h2: Any = None
+    h3: Any = None
 
 
 class Timeout(Exception):
@@ -167,6 +178,11 @@ class Builder:
                 conds = [self.cond(c[1]), self.cond(c[2])]
             else:
                 conds = [self.cond(c)]
+        if case.get('infer'):
+            # infer(entity(H(h0=e0, ...), conditions)): the selected expressions of the case are the constructor arguments
+            from entity_query_language.entity import infer
+            head = H(**{f'h{i}': s_ for i, s_ in enumerate(sel)})
+            return infer(entity(head, *conds)), sel
         quant = the if case.get('quant') == 'the' else an
         if case.get('form') == 'entity':
             return quant(entity(sel[0], *conds)), sel
@@ -176,6 +192,16 @@ class Builder:
 def rows_of(q, sel, form, objs, quant=None):
     index_of = lambda o: o.idx
     out = []
+    if form == 'infer':
+        made = list(q.evaluate())
+        if any(type(o) is not H for o in made) or len({id(o) for o in made}) != len(made):
+            return 'X not-new-instances'
+        for o in made:
+            vals = [getattr(o, f'h{i}') for i in range(len(sel))]
+            if any(isinstance(v, P) and v is not objs[v.idx] for v in vals):
+                return 'X field-object-copied'
+            out.append(','.join(show_val(v, index_of) for v in vals))
+        return 'R ' + ';'.join(out)
     res = q.evaluate()
     if quant == 'the':
         res = [res]
@@ -210,6 +236,9 @@ def run(case):
         LIST_MODE[0] = bool(case.get('list_items'))
 
         def build():
+            if case.get('infer'):
+                with rule_mode():
+                    return Builder(case, objs).query()
             with symbolic_mode():
                 return Builder(case, objs).query()
         try:
